@@ -50,7 +50,7 @@ const prelude = `(set-logic ALL)
 (assert (forall ((a Int) (i Int)) (! (and (= (er_arr (elemref a i)) a) (= (er_idx (elemref a i)) i) (not (= (elemref a i) 0)) (= (subtag (elemref a i)) (- 1)) (= (rootof (elemref a i)) (rootof a))) :pattern ((elemref a i)))))
 (declare-fun b2s ((Array Int Int) Int Int) Str)
 (assert (forall ((m (Array Int Int)) (o Int) (n Int)) (! (=> (>= n 0) (= (len (b2s m o n)) n)) :pattern ((b2s m o n)))))
-(assert (forall ((m (Array Int Int)) (o Int) (n Int) (i Int)) (! (=> (and (<= 0 i) (< i n)) (= (at (b2s m o n) i) (select m (+ o i)))) :pattern ((at (b2s m o n) i)))))
+(assert (forall ((m (Array Int Int)) (o Int) (n Int) (i Int)) (! (=> (and (<= 0 i) (< i n) (<= 0 (select m (+ o i))) (< (select m (+ o i)) 256)) (= (at (b2s m o n) i) (select m (+ o i)))) :pattern ((at (b2s m o n) i)))))
 (assert (forall ((m (Array Int Int)) (o Int) (n Int) (a Int) (b Int)) (! (=> (and (<= 0 a) (<= a b) (<= b n)) (= (sub (b2s m o n) a b) (b2s m (+ o a) (- b a)))) :pattern ((sub (b2s m o n) a b)))))
 (declare-fun tagof (Int) Int)
 (declare-fun unboxI (Int) Int)
